@@ -165,7 +165,6 @@ fn parse_doc_pattern(p: &str) -> Option<(Kind, (u16, u16))> {
 }
 
 fn main() {
-    vx_core::quiet_error_backtraces();
     let check = Check::from_args("C15", Level::Exploration);
     let dict = DictRef::load();
     check.set_rule("tag sweep: thorough = all 2^32 tags (one block per group); quick = all 65 536 elements of every group that owns a table row, of its neighbours +-1 and of every group of the repeating ranges (gg00-ggFF) and their neighbours, plus for all 65 536 groups the elements {0000,0001,000F,0010,0011,00FE,00FF,0100,FFFF} and every element that has a repeating-group row; each tag is one case (distinct by construction), non-trivial = by_tag executed and compared with the reference lookup (exact -> repeating group -> repeating element -> private creator -> group length -> none, direct indexing of the extracted table). Then every table keyword through by_name (both DataDictionary impls) plus the keywords of the two generic entries; every compiled tags::* constant against the doc-comment rendering of the table and its entry; every SOP class row through by_uid/by_keyword (bijection), every compiled uids::* constant");
